@@ -72,7 +72,7 @@ func (c *Ctx) Goderive(dir string, args []string, extraEnv ...string) grun.Resul
 
 // Go runs the go tool in a scratch module.
 func (c *Ctx) Go(dir string, args ...string) grun.Result {
-	return grun.Run("go", args, grun.Opts{Dir: dir, Env: c.Env.ScratchEnv(), Wall: 15 * time.Minute})
+	return grun.Run(c.Env.GoBin(), args, grun.Opts{Dir: dir, Env: c.Env.ScratchEnv(), Wall: 15 * time.Minute})
 }
 
 // WriteMon copies the monitor library into <dir>/mon.
